@@ -9,7 +9,9 @@ package aghnet
 // "anonymised" (with the no-op function installed when anonymisation is off, nothing changes - still the current policy).
 //@ func (functype) IPMutFunc(ip net.IP)
 //@   ghost at return: anonymised[arrayOf(ip)] = true
-//@   modifies elems(ip), anonymised
+//@   ghost at return: rawAddrText = old(ip.String())
+//@   ghost at return: maskedAddrText = ip.String()
+//@   modifies elems(ip), anonymised, rawAddrText, maskedAddrText
 
 // The ignore list is matched in lower case: the rules are lower-cased when the engine is built (hosts reach Has
 // already normalised by aghnet.NormalizeDomain).
